@@ -26,8 +26,13 @@ ENGINE = 'val'
 ALLOWED_EXC = (ValueError, TypeError, KeyError)
 
 # meta/visual menus restricted to values with plain Python equality
-META_MENU = {k: v for k, v in gen.META_VALUES.items() if k not in ('range',)}
-VISUAL_MENU = dict(gen.VISUAL_VALUES)
+META_MENU = {k: list(v) for k, v in gen.META_VALUES.items()
+             if k not in ('range',)}
+VISUAL_MENU = {k: list(v) for k, v in gen.VISUAL_VALUES.items()}
+for _k in ('label', 'comment', 'name', 'text'):
+    META_MENU[_k].append(None)
+for _k in ('color', 'linestyle', 'fontname'):
+    VISUAL_MENU[_k].append(None)
 META_VALID = ['background', 'comment', 'component', 'composite', 'corr',
               'delete', 'edit', 'fixed', 'frame', 'highlite', 'include',
               'label', 'line', 'move', 'name', 'range', 'restfreq',
@@ -293,6 +298,7 @@ def invalid_values(kind):
                 ('ninf', Q({'t': 'ninf'}, 'arcsec')),
                 ('bare_float', 2.0), ('bare_int', 3),
                 ('non_angular', Q(2.0, 'm')), ('dimensionless', Q(2.0, '')),
+                ('parsec', Q(3.0, 'pc')),
                 ('array', Q([1.0, 2.0], 'deg')), ('str', 'abc'),
                 ('none', None), ('pix_quantity', Q(2.0, 'pix')),
                 ('angle_array', {'t': 'angle', 'v': [1.0, 2.0], 'u': 'deg'}),
@@ -303,6 +309,7 @@ def invalid_values(kind):
     if kind == 'angle':
         return [('bare_float', 30.0), ('bare_int', 0),
                 ('non_angular', Q(30.0, 'm')), ('dimensionless', Q(1.0, '')),
+                ('pix', Q(30.0, 'pix')), ('parsec', Q(3.0, 'pc')),
                 ('array', Q([1.0, 2.0], 'deg')), ('str', '30deg'),
                 ('none', None), ('time', Q(3.0, 's')),
                 ('angle_array', {'t': 'angle', 'v': [10.0, 20.0], 'u': 'deg'}),
@@ -360,6 +367,63 @@ def draw_dict_items(rng, kind, nmax=3):
         if k not in keys:
             keys.append(k)
     return [[k, rng.pick(menu[k])] for k in keys]
+
+
+def perturb_items(rng, kind, current):
+    """Items of a dict that differs from ``current`` (a model dict) in
+    exactly one entry: a changed value, a dropped key, an added key, a key
+    replaced by another key (same number of entries), a None value in place
+    of a missing key and vice versa.  Returns None if no variant applies."""
+    menu = META_MENU if kind == 'meta' else VISUAL_MENU
+    items = [[k, _recipe_of(menu, k, v)] for k, v in current.items()]
+    if any(r is _MISSING for _, r in items):
+        return None
+    absent = [k for k in sorted(menu) if k not in current]
+    how = rng.pick(['change', 'drop', 'add', 'replace_key', 'add_none',
+                    'to_none'])
+    if how in ('change', 'drop', 'replace_key', 'to_none') and not items:
+        how = 'add'
+    if how in ('add', 'replace_key', 'add_none') and not absent:
+        return None
+    i = rng.randrange(len(items)) if items else 0
+    if how == 'change':
+        k = items[i][0]
+        alts = [v for v in menu[k] if build(v) != current[k]]
+        if not alts:
+            return None
+        items[i] = [k, rng.pick(alts)]
+    elif how == 'drop':
+        del items[i]
+    elif how == 'add':
+        k = rng.pick(absent)
+        items.append([k, rng.pick(menu[k])])
+    elif how == 'replace_key':
+        k = rng.pick(absent)
+        items[i] = [k, rng.pick(menu[k] + [None])]
+    elif how == 'add_none':
+        items.append([rng.pick(absent), None])
+    elif how == 'to_none':
+        if current[items[i][0]] is None:
+            return None
+        items[i] = [items[i][0], None]
+    return items
+
+
+_MISSING = object()
+
+
+def _recipe_of(menu, key, value):
+    """The menu recipe that builds ``value`` (model values are built from
+    menu recipes, so one always exists unless the dict was edited by hand)."""
+    for r in menu.get(key, []):
+        try:
+            if build(r) == value and type(build(r)) is type(value):
+                return r
+        except Exception:
+            pass
+    if value is None or isinstance(value, (str, int, float, bool)):
+        return value
+    return _MISSING
 
 
 def items_to_model(items):
@@ -540,6 +604,21 @@ class Machine:
 
     # ---- execution
     def run(self):
+        import contextlib
+        import astropy.units as u
+        eq = self.plan.get('cfg', {}).get('equiv', 'none')
+        ctx = contextlib.nullcontext()
+        if eq == 'dimensionless_angles':
+            ctx = u.set_enabled_equivalencies(u.dimensionless_angles())
+        elif eq == 'pixel_scale':
+            ctx = u.set_enabled_equivalencies(
+                u.pixel_scale(0.5 * u.arcsec / u.pix))
+        elif eq == 'parallax':
+            ctx = u.set_enabled_equivalencies(u.parallax())
+        with ctx:
+            return self._run()
+
+    def _run(self):
         for i, op in enumerate(self.plan['ops']):
             self.step = i
             self.cur_op = op['op']
@@ -746,7 +825,12 @@ class Machine:
         kinds = dict(S.model.fields())
         for f in chosen:
             if f in ('meta', 'visual'):
-                items = draw_dict_items(rng, f)
+                items = None
+                if rng.chance(0.5):
+                    # differ from the original in exactly one entry
+                    items = perturb_items(rng, f, getattr(S.model, f).d)
+                if items is None:
+                    items = draw_dict_items(rng, f)
                 changes[f] = build({'t': f, 'v': items})
                 setattr(m, f, MDict(f, items_to_model(items)))
                 desc[f] = items
@@ -1506,6 +1590,17 @@ class Machine:
                             return
                         tok = rng.pick(cand)
                 v = valid_variant(rng, kind, tok)
+                # a spelling (e.g. float32) must not break the ordering the
+                # token was chosen for
+                for inner, outer in gen.ANNULUS_PAIRS.get(cls, []):
+                    if f in (inner, outer):
+                        ov = getattr(obj, outer if f == inner else inner)
+                        try:
+                            ok = bool(v < ov) if f == inner else bool(v > ov)
+                        except Exception:
+                            ok = False
+                        if not ok:
+                            v = mk_value(kind, tok)
                 value = f'{kind}:valid'
         elif c == 'order':
             inner, outer = rng.pick(gen.ANNULUS_PAIRS[cls])
@@ -2127,8 +2222,14 @@ def gen_plan(seed, index, tier='quick', mode='c16'):
         k = ops.weighted(enabled)
         plan_ops.append({'op': k, 's': ops.randrange(64),
                          's2': ops.randrange(64), 'r': ops.getrandbits(48)})
+    # ambient configuration: unit equivalencies the application may have
+    # enabled globally in astropy (they must not widen what is accepted)
+    equiv = 'none'
+    if mode == 'c17':
+        equiv = cfg.weighted([('none', 5), ('dimensionless_angles', 1),
+                              ('pixel_scale', 1), ('parallax', 1)])
     return {'engine': ENGINE, 'mode': mode, 'seed': seed, 'index': index,
-            'ops': plan_ops}
+            'cfg': {'equiv': equiv}, 'ops': plan_ops}
 
 
 def execute(plan, ctx):
@@ -2214,7 +2315,7 @@ def signature(v):
 
 
 def describe(plan, res):
-    lines = [f'val run mode={plan["mode"]} seed={plan["seed"]} '
+    lines = [f'val run mode={plan["mode"]} seed={plan["seed"]} cfg={plan.get("cfg")} '
              f'({len(plan["ops"])} ops)']
     for e in res['events']:
         if e.get('skip'):
